@@ -16,8 +16,8 @@ from harness import stmt_wire as SW
 
 META = {
     "id": "C06",
-    "technique": "Coq proof (escape = _escape_string_literal round-trips through a model of the g++ string-literal lexer for every string without a line end, refuted with a raw line end; the emitter's stitching order is sorted by section kind with one setup and one loop, declared-before-use of file-scope names holds under an explicit guard and is refuted for a function that mentions an ultrasonic helper or a later function; every assignment in the IR of the statement translator targets a variable visible under C++ block scoping, by induction over the translation incl. promotion and both rewriters, refuted for a setup-local introduced by a mixed tuple assignment; the header stitching includes the headers of every library class it instantiates, for every list of device declarations (Lang/Headers.v); the function-selection loop of parse() emits each (function, signature) once, only existing variants and every variant a recorded call resolves to, and no two definitions share name and C++ parameter list when the labels are those of _cpp_type's table (Lang/FnSelect.v); every device-call template of _emit_block keeps its helper locals in a block of its own, so any sequence of device calls in any block is free of redeclaration, and a whole function body is when the script's own declarations are (Lang/EmitScope.v: scope stack of C++ block scoping, LCD glyph arrays numbered by a counter that only grows); the global lines de-duplicated by text define no name twice when each name is always offered with one initialiser, refuted for a Servo bound twice with different limits (Lang/Globals.v)) + extracted-model correspondence with the real _escape_string_literal / _to_c_expr, with g++'s own lexer, with the section structure read back from the real emitted text, of the scoping verdict with g++, of the include list / library objects with the real text for the device declarations of the real IR, of the selected function variants with Program.functions for the real specialisation tables, and of the blocks and declarations of setup / loop / every user function that the emitter model produces for the real IR with those read back from the real text + the compiler as property oracle: the whole statement catalog (every device method with literal and run-time arguments, every statement that makes the transpiler invent a C++ name) twice in ONE block of every kind of block, reduced by ddmin to a minimal failing sequence; every accepted generated script inside the guard is compiled and linked with g++ against the mock core, every generated printable literal is printed by the firmware and compared with the Python value",
-    "level_text": "Theorems C06_* (coq/Props/C06.v) hold for all strings / all sketches / all programs of Gallina models (coq/Lang/Escape.v: escape and a lexer of one ordinary C++ string literal incl. line splicing; coq/Lang/Sections.v: the emitter's stitching order with defines/uses per top-level item; coq/Lang/Scope.v: C++ block scoping over the IR of coq/Lang/Transl.v, the model of the statement translator that unit C01_stmt ties to parser.py; coq/Lang/Headers.v: servo/LCD flags, library objects and includes as a fold over the top-level device declarations; coq/Lang/FnSelect.v: the selection loop over variants / recorded call signatures / aliases / primary signature and _cpp_type; coq/Lang/EmitScope.v: per IR node kind the blocks it opens and the names it declares, written from the branches of _emit_block, and the scope stack that decides 'declared twice in one scope'; coq/Lang/Globals.v: de-duplication of global lines by text). The models are run against the real functions and against g++ on generated inputs; the C++ type checker is not modelled - g++ itself decides, on every accepted script of a structured generator (devices x helpers x lists x functions x control flow x printable literals) restricted to the guard of the listed findings.",
+    "technique": "Coq proof (escape = _escape_string_literal - backslash, quote, LF / CR / TAB as letter escapes, every other control character as a three-digit octal escape - round-trips through a model of the g++ string-literal lexer for EVERY string, its image contains no control character, it is injective and agrees with the pre-repair function on strings without control characters, which in turn is shown to fail on a raw line end; the emitter's stitching order - with one prototype per function variant and ultrasonic helper after the globals - is sorted by section kind with one setup and one loop, declared-before-use of file-scope names holds under a guard that lets a function mention any function and any ultrasonic helper, in particular for a function that calls measure_distance() or a function defined further down, and is refuted for the order without prototypes; every assignment in the IR of the statement translator targets a variable visible under C++ block scoping, by induction over the translation incl. promotion and both rewriters, refuted for a setup-local introduced by a mixed tuple assignment; the header stitching includes the headers of every library class it instantiates, for every list of device declarations (Lang/Headers.v); the function-selection loop of parse() emits each (function, signature) once, only existing variants and every variant a recorded call resolves to, and no two definitions share name and C++ parameter list when the labels are those of _cpp_type's table (Lang/FnSelect.v); every device-call template of _emit_block keeps its helper locals in a block of its own, so any sequence of device calls in any block is free of redeclaration, and a whole function body is when the script's own declarations are (Lang/EmitScope.v: scope stack of C++ block scoping, LCD glyph arrays numbered by a counter that only grows); the global lines de-duplicated by text define no name twice when each name is always offered with one initialiser, refuted for a Servo bound twice with different limits (Lang/Globals.v)) + extracted-model correspondence with the real _escape_string_literal / _to_c_expr, with g++'s own lexer, with the section structure read back from the real emitted text, of the scoping verdict with g++, of the include list / library objects with the real text for the device declarations of the real IR, of the selected function variants with Program.functions for the real specialisation tables, and of the blocks and declarations of setup / loop / every user function that the emitter model produces for the real IR with those read back from the real text + the compiler as property oracle: the whole statement catalog (every device method with literal and run-time arguments, every statement that makes the transpiler invent a C++ name) twice in ONE block of every kind of block, reduced by ddmin to a minimal failing sequence; every accepted generated script inside the guard is compiled and linked with g++ against the mock core, every generated literal (printable or with control characters, NUL excepted) is printed by the firmware and compared with the Python value; the images of the real escape are compiled by g++ and read back byte by byte",
+    "level_text": "Theorems C06_* (coq/Props/C06.v) hold for all strings / all sketches / all programs of Gallina models (coq/Lang/Escape.v: escape and a lexer of one ordinary C++ string literal incl. line splicing and octal / hexadecimal escapes; coq/Lang/Sections.v: the emitter's stitching order incl. the generated prototypes, with defines/uses per top-level item; coq/Lang/Scope.v: C++ block scoping over the IR of coq/Lang/Transl.v, the model of the statement translator that unit C01_stmt ties to parser.py; coq/Lang/Headers.v: servo/LCD flags, library objects and includes as a fold over the top-level device declarations; coq/Lang/FnSelect.v: the selection loop over variants / recorded call signatures / aliases / primary signature and _cpp_type; coq/Lang/EmitScope.v: per IR node kind the blocks it opens and the names it declares, written from the branches of _emit_block, and the scope stack that decides 'declared twice in one scope'; coq/Lang/Globals.v: de-duplication of global lines by text). The models are run against the real functions and against g++ on generated inputs; the C++ type checker is not modelled - g++ itself decides, on every accepted script of a structured generator (devices x helpers x lists x functions incl. forward calls and measuring functions x control flow x string literals incl. control characters) restricted to the guard of the listed findings.",
     "level_note": "Trusted: Coq kernel, extraction, OCaml driver, g++ 12 -std=gnu++17 and the mock Arduino core as the definition of 'compiles', harness/c06_sections.py (reads top-level items, defined and used names out of the emitted text), harness/c06_gen.py (script generator and the syntactic guard shapes_of). Theorems are about the models; what ties the whole transpiler to the property is the compiler oracle, a search, not a proof.",
     "design_ref": "DESIGN.md section 4 C06",
 }
@@ -79,8 +79,26 @@ def err_key(log: str) -> str:
 
 
 def in_guard_string(s: str) -> bool:
-    """guard of the listed finding F-C06-line-end-in-literal (and the property's quantifier: printable)"""
-    return s.isprintable()
+    """every string: the guard of F-C06-line-end-in-literal (str.isprintable) is gone with the repair of the escape"""
+    return True
+
+
+def device_value_ok(s: str) -> bool:
+    """the device-value oracle of part C needs a value a C string can carry (no NUL: const char* / String(const char*) end there -
+    the literal itself is right, see parts A and B) that is UTF-8 encodable"""
+    try:
+        s.encode("utf-8")
+    except UnicodeEncodeError:
+        return False
+    return "\x00" not in s
+
+
+def serial_lines(data: bytes):
+    """what the mock's Serial makes of a byte stream: split at LF, one CR before the LF dropped (mock_core.cpp HardwareSerial::write)"""
+    out = []
+    for ln in data.split(b"\n")[:-1]:
+        out.append(ln[:-1] if ln.endswith(b"\r") else ln)
+    return out
 
 
 # ------------------------------------------------------------------ A. escape / _to_c_expr
@@ -89,14 +107,22 @@ CONTROL_POOL = ["\n", "\r", "\t", "a\nb", "a\rb", "a\r\nb", "\\\n", "a\\\nb", "\
 
 def gen_strings(rng, n):
     out = list(G.SPECIAL_STRINGS)
-    # exhaustive short strings over the boundary alphabet
-    alpha = ["\\", "\"", "'", "?", "a", "/", "n", "0", "x", "%", "é", " "]
+    # exhaustive short strings over the boundary alphabet (control characters included since the repair of the escape)
+    alpha = ["\\", "\"", "'", "?", "a", "/", "n", "0", "x", "%", "é", " ", "\n", "\r", "\t", "\x00", "\x01", "\x1f", "\x7f", "7", "8"]
     out += alpha
     out += [a + b for a in alpha for b in alpha]
-    tri = ["\\", "\"", "?", "n", "é"]
+    tri = ["\\", "\"", "?", "n", "é", "\n", "\x01", "1"]
     out += [a + b + c for a in tri for b in tri for c in tri]
-    while len(out) < n:
-        out.append(G.gen_printable(rng, rng.choice([3, 8, 12, 30])))
+    # every code point below 256 alone and in front of a character an unclosed numeric escape would absorb / that closes a literal
+    for c in range(256):
+        out.append(chr(c))
+        for nxt in ("0", "7", "8", "a", "f", "\\", "\"", "\n"):
+            out.append(chr(c) + nxt)
+    base = len(out)
+    k = 0
+    while len(out) < base + n:
+        k += 1
+        out.append(G.gen_printable(rng, rng.choice([3, 8, 12, 30])) if k % 2 else G.gen_any_string(rng, rng.choice([3, 8, 12, 30])))
     return out
 
 
@@ -132,8 +158,8 @@ def part_escape(ctx, dist, samples):
             n_eval += 1
             no_le = "\n" not in s and "\r" not in s
             dist["model_roundtrip:" + ("holds" if m == [0, 1] else "fails") + (":no-line-end" if no_le else ":line-end")] += 1
-            if no_le and m != [0, 1]:
-                ctx.disagree("model round trip fails on a string without line end (contradicts the theorem: extraction or wire bug)", {"string": s, "rest": r}, m, None)
+            if m != [0, 1]:
+                ctx.disagree("model round trip fails (contradicts theorem C06_escape_roundtrip: extraction or wire bug)", {"string": s, "rest": r}, m, None)
     # property oracle on the implementation: lex the REAL escaped text with the model lexer
     guard_idx = [k for k, s in enumerate(allstr) if in_guard_string(s)]
     if ctx.exe:
@@ -167,11 +193,13 @@ def part_escape(ctx, dist, samples):
         gs = "".join(chr(c) for c in g)
         if gs != w:
             ctx.disagree(f"_to_c_expr ({site}): emitted text differs from quote + model escape + quote", {"expr": x, "string": s}, w, gs)
-    dist["strings:printable"] = len(guard_idx)
-    dist["strings:with-control-char"] = len(allstr) - len(guard_idx)
+    dist["strings:printable"] = sum(1 for s in allstr if s.isprintable())
+    dist["strings:with-control-char"] = sum(1 for s in allstr if any(ord(c) < 32 or ord(c) == 127 for c in s))
+    dist["strings:with-line-end"] = sum(1 for s in allstr if "\n" in s or "\r" in s)
     dist["strings:needing-escape"] = len(nontriv)
     samples += [{"string": allstr[5], "escaped": "".join(chr(c) for c in got[5])}]
-    return n_eval, len(nontriv), allstr
+    escaped = {s: "".join(chr(c) for c in g) for s, g in zip(allstr, got)}
+    return n_eval, len(nontriv), allstr, escaped
 
 
 # ------------------------------------------------------------------ B. the lexer model vs g++
@@ -210,18 +238,29 @@ def gen_raw_literal(rng, ascii_only):
     return "".join(out)
 
 
-def part_lexer(ctx, dist):
+def part_lexer(ctx, dist, escaped):
+    """escaped: {string: the text the REAL _escape_string_literal produced for it} (part A)"""
     if not ctx.exe:
         return 0
     rng = ctx.rng
     thorough = ctx.tier == "thorough"
     n = 1200 if thorough else 240
     bodies = []
+    origin = {}
     for k in range(n):
         ascii_only = k % 2 == 0
         bodies.append((gen_raw_literal(rng, ascii_only), ascii_only))
-    for s in (G.SPECIAL_STRINGS[:40] if not thorough else G.SPECIAL_STRINGS):     # escaped images of the special strings
-        bodies.append((s.replace("\\", "\\\\").replace('"', '\\"'), s.isascii()))
+    # images of the REAL escape: the special strings, every string with a control character or a line end (sampled), each code
+    # point below 256 in front of a digit - g++ itself must read the literal back as the UTF-8 bytes of the Python string
+    pool = [s for s in escaped if device_value_ok(s.replace("\x00", ""))]
+    ctl = [s for s in pool if any(ord(c) < 32 or ord(c) == 127 for c in s)]
+    rng.shuffle(ctl)
+    chosen = list(G.SPECIAL_STRINGS[:40] if not thorough else G.SPECIAL_STRINGS) + [chr(c) + "7" for c in range(256)] + ctl[:(3000 if thorough else 500)]
+    for s in chosen:
+        if s in escaped:
+            origin[len(bodies)] = s
+            bodies.append((escaped[s], s.isascii()))
+    dist["lexer:images of the real escape compiled by g++"] = len(origin)
     rests = [rng.choice([";", "; // \"", ";\n"]) for _ in bodies]
     mo = ctx.model([[1, "\"" + b + "\"" + r] for (b, _), r in zip(bodies, rests)])
     ok = [(k, m) for k, m in enumerate(mo) if m[0] == 0]
@@ -267,6 +306,12 @@ def part_lexer(ctx, dist):
                     want = list("".join(chr(c) for c in content).encode("utf-8"))
                 except (UnicodeEncodeError, ValueError):
                     continue
+            if k in origin:
+                s = origin[k]
+                if got.get(k) != list(s.encode("utf-8")):
+                    ctx.fail("the C++ literal produced by _escape_string_literal is read by g++ as another string",
+                             {"string": s, "codepoints": cps(s), "emitted_literal": "\"" + body + "\""},
+                             list(s.encode("utf-8")), got.get(k), key="escape-g++")
             if got.get(k) != want or C.wstr(m[2]) != rests[k]:
                 ctx.disagree("C++ string-literal lexer: model vs g++ (bytes of the literal)", {"literal_body": body, "codepoints": cps(body)}, want, got.get(k))
     for (body, why), r in zip(le, res[len(groups):]):
@@ -325,15 +370,19 @@ def expected_line(s, cx):
 def part_literals(ctx, dist, strings):
     rng = ctx.rng
     thorough = ctx.tier == "thorough"
-    pool = [s for s in strings if in_guard_string(s)]
+    pool = [s for s in strings if device_value_ok(s)]
+    ctl_pool = [s for s in pool if not s.isprintable()]
     n = 1500 if thorough else 260
-    chosen = list(G.SPECIAL_STRINGS) + [rng.choice(pool) for _ in range(n)]
+    # half of the random picks are strings with control characters (the region the repaired escape finding used to exclude)
+    chosen = list(G.SPECIAL_STRINGS) + [s for s in CONTROL_POOL if device_value_ok(s)] + \
+        [rng.choice(ctl_pool if (k % 2 and ctl_pool) else pool) for k in range(n)]
     items = [(k, s, "write" if k < len(G.SPECIAL_STRINGS) else rng.choice(CONTEXTS)) for k, s in enumerate(chosen)]
     per = 25
     batches = [items[k:k + per] for k in range(0, len(items), per)]
     n_eval = 0
     work = batches
     rounds = 0
+    dropped = []
     while work and rounds < 6:
         rounds += 1
         srcs = [literal_script(rng, b) for b in work]
@@ -351,7 +400,7 @@ def part_literals(ctx, dist, strings):
             if not x["compiled"]:
                 if len(b) == 1:
                     cid, sv, cx = b[0]
-                    ctx.fail("script with one printable string literal is accepted but does not compile",
+                    ctx.fail("script with one string literal is accepted but does not compile",
                              {"script": s, "string": sv, "codepoints": cps(sv), "context": cx, "errors": re.findall(r"error: .*", x["compile_log"])[:4]},
                              "compiles", "g++ error", key="literal-" + err_key(x["compile_log"]))
                 else:
@@ -361,18 +410,25 @@ def part_literals(ctx, dist, strings):
             for cid, sv, cx in b:
                 ev = cases.get(str(cid))
                 lines = [e for e in (ev or []) if e.startswith("S ") or e == "S"]
+                if lines and lines[-1] == "S ##end":            # the end marker of the batch, printed after the last case
+                    lines = lines[:-1]
                 if ev is None or not lines:
                     dist["literal:no-output(line dropped by the parser)"] += 1
+                    dropped.append({"string": sv, "context": cx})
                     continue
                 n_eval += 1
                 dist["literal:context:" + cx] += 1
-                gotb = unescape_event(lines[0][2:])
-                want = expected_line(sv, cx).encode("utf-8")
-                if gotb != want:
-                    ctx.fail("a printable string literal reaches the device as a different string",
+                dist["literal:" + ("printable" if sv.isprintable() else "with control character" + (" (line end)" if "\n" in sv or "\r" in sv else ""))] += 1
+                # the value followed by println's CR LF, as the mock's Serial cuts it into lines
+                gotl = [unescape_event(e[2:]) for e in lines]
+                wantl = serial_lines(expected_line(sv, cx).encode("utf-8") + b"\r\n")
+                if gotl != wantl:
+                    ctx.fail("a string literal reaches the device as a different string",
                              {"script": literal_script(rng, [(cid, sv, cx)]), "string": sv, "codepoints": cps(sv), "context": cx},
-                             list(want), list(gotb), key="literal-value:" + cx)
+                             [list(x) for x in wantl], [list(x) for x in gotl], key="literal-value:" + cx)
         work = nxt
+    if dropped:
+        ctx.coverage.setdefault("notes", {})["literal cases without output"] = dropped[:10]
     return n_eval
 
 
@@ -429,6 +485,32 @@ def boundary_scripts():
     }
     for k, body in helpers.items():
         out.append((head + body + (tail if "while True" not in body else ""), {"boundary: helper " + k: 1}))
+    # the two shapes the prototypes repair (F-C06-fn-uses-ultrasonic, F-C06-fn-forward-call), smallest scripts first
+    uimp = imp + "from Reduino.Sensors import Ultrasonic\nmon = SerialMonitor(9600)\n"
+    ultra = {
+        "returns the distance": "u = Ultrasonic(7, 8)\ndef far():\n    d = u.measure_distance()\n    return d\n" + "while True:\n    mon.write(far())\n    sleep(100)\n",
+        "in a condition": "u = Ultrasonic(7, 8)\ndef near():\n    if u.measure_distance() < 20.0:\n        return True\n    return False\n" + "while True:\n    mon.write(near())\n    sleep(100)\n",
+        "two sensors, two functions": "front = Ultrasonic(7, 8)\nback = Ultrasonic(9, 10)\ndef gap():\n    return front.measure_distance() - back.measure_distance()\ndef ahead():\n    return front.measure_distance()\n"
+                                      + "g0 = gap()\nwhile True:\n    mon.write(ahead())\n    mon.write(gap())\n    sleep(100)\n",
+        "only the function measures": "u = Ultrasonic(7, 8)\ndef ping():\n    mon.write(u.measure_distance())\nping()\nwhile True:\n    sleep(100)\n",
+        "function and loop measure": "u = Ultrasonic(7, 8)\ndef ping():\n    return u.measure_distance() / 2.0\nwhile True:\n    mon.write(ping() + u.measure_distance())\n    sleep(100)\n",
+        "called by a function above it": "u = Ultrasonic(7, 8)\ndef twice():\n    return ping() * 2.0\ndef ping():\n    return u.measure_distance()\nwhile True:\n    mon.write(twice())\n    sleep(100)\n",
+        "sensor declared at the top of the loop": "def ping():\n    return u.measure_distance()\nwhile True:\n    u = Ultrasonic(7, 8)\n    mon.write(ping())\n    sleep(100)\n",
+    }
+    for k, body in ultra.items():
+        out.append((uimp + body, {"boundary: function uses ultrasonic, " + k: 1}))
+    fwd = {
+        "int result": "def f():\n    return g() + 1\ndef g():\n    return 2\n" + "while True:\n    mon.write(f())\n    sleep(100)\n",
+        "argument, float caller": "def f(k: int):\n    return g(k) + 0.5\ndef g(z: int):\n    return z * 2\n" + "while True:\n    mon.write(f(3))\n    sleep(100)\n",
+        "bare statement": "def f():\n    show(3)\ndef show(n: int):\n    mon.write(n)\nf()\n" + tail,
+        "in a condition": "def f(v: int):\n    if big(v) > 0:\n        return 1\n    return 0\ndef big(w: int):\n    return w // 10\nr = f(20)\n" + tail,
+        "mutual recursion": "def even(n: int):\n    if n == 0:\n        return 1\n    return odd(n - 1)\ndef odd(n: int):\n    if n == 0:\n        return 0\n    return even(n - 1)\n" + "while True:\n    mon.write(even(4))\n    sleep(100)\n",
+        "chain of three": "def a1():\n    return b1() + 1\ndef b1():\n    return c1() + 1\ndef c1():\n    return 1\nv = a1()\n" + tail,
+        "two callers of one later function": "def p1():\n    return later(1)\ndef p2():\n    return later(2) * 2\ndef later(k: int):\n    return k + 1\nv = p1() + p2()\n" + tail,
+        "called forward and backward": "def first():\n    return second() + 1\ndef second():\n    return 2\ndef third():\n    return first() + second()\nv = third()\n" + tail,
+    }
+    for k, body in fwd.items():
+        out.append((head + body, {"boundary: forward call, " + k: 1}))
     # device names bound twice (inside the guard of F-C06-rebound-device-globals: Servo / Buzzer with the same limits): twice before
     # the loop with the same / with other pins, and once before the loop and once more at the top of the loop body
     dimp = ("from Reduino import target\ntarget(\"COM3\")\nfrom Reduino.Actuators import Servo, Buzzer, Led, RGBLed, DCMotor\n"
@@ -458,6 +540,9 @@ def gen_scripts(rng, n):
             opts["layout"] = ["default", "interleave", "fns_before_devices"][(k // 4) % 3]
         if k % 4 == 1:
             opts["force_hoist"] = [G.HOISTABLE[(k // 4) % len(G.HOISTABLE)]]
+            if (k // 4) % 2 == 0:   # several functions written in reverse order: every call among them is a forward call; with an
+                opts["forward"] = True      # Ultrasonic, so that function bodies can measure
+                opts["force_kinds"] = ["Ultrasonic"]
         if k % 4 == 2:          # several instances per device kind, kinds interleaved, a hoistable kind both before and in the loop;
             j = k // 4          # in rotation: both LCD interfaces in one sketch / only I2C / only parallel LCDs / whatever comes
             opts["multi"] = True
@@ -498,11 +583,29 @@ def analyse_sections(ctx, src, r, consts, compiled, dist, expect_guard=True):
     if m[0] != 0:
         ctx.disagree("model could not decode the section case", {"script": src}, m, case)
         return items, None
-    m_kinds, m_wf, m_guard, m_und = m[1], m[2], m[3], m[4]
+    m_kinds, m_wf, m_guard, m_und, m_protos = m[1], m[2], m[3], m[4], m[5]
     real_ranks = [S.RANK[k] for k in kinds]
     if m_kinds != real_ranks:
         ctx.disagree("order of top-level sections: model (stitch) vs emitted text", {"script": src, "items": [(it["kind"], it["name"]) for it in items]}, m_kinds, real_ranks)
     names = {v: k for k, v in ids.items()}
+    # the prototypes: one per function definition / ultrasonic helper, in that order, declaring its name
+    real_protos = [[it["name"]] for it in items if it["kind"] == "proto"]
+    model_protos = [[names.get(i, "?") for i in ds] for ds in m_protos]
+    dist["sections:prototypes"] += len(real_protos)
+    if model_protos != real_protos:
+        ctx.disagree("forward declarations: model (one per emitted function variant, then one per ultrasonic helper) vs emitted text",
+                     {"script": src}, model_protos, real_protos)
+    # and each prototype has the parameter list and return type of its definition (g++ accepts a prototype that declares
+    # ANOTHER overload and fails only at a forward call: correspondence, the compiler oracle finds the failing script)
+    pending = {}
+    for it in items:
+        if it["kind"] == "proto":
+            pending.setdefault(it["name"], []).append(" ".join(it["ctext"].rstrip().rstrip(";").split()))
+        elif it["kind"] in ("function", "ultra"):
+            head = " ".join(it["ctext"].split("{")[0].split())
+            if head not in pending.get(it["name"], []):
+                ctx.disagree("forward declarations: a definition has no prototype with the same return type and parameter list (the model generates the prototype from the definition)",
+                             {"script": src, "function": it["name"]}, head + ";", pending.get(it["name"], []))
     und = [(p, names.get(i, "?")) for p, i in m_und]
     dist["sections:wf=" + str(m_wf) + ",guard=" + str(m_guard)] += 1
     if compiled is not None:
@@ -545,7 +648,9 @@ def library_facts(cpp, code, consts):
     real sketch text; code = the text with literals and comments blanked.  Includes that belong to a helper snippet (<cstring> of
     the len helper) are not part of the header stitching."""
     inside = []
-    for key in ("LCD", "LIST", "LEN"):
+    for key in S.SNIPPET_KEYS:
+        if key not in consts:
+            continue
         k = cpp.find(consts[key])
         if k >= 0:
             inside.append((k, k + len(consts[key])))
@@ -682,6 +787,8 @@ def part_scripts(ctx, dist, samples):
             continue
         inside.append(src)
         feats.update(f)
+        for rk, rv in G.repaired_region(src).items():
+            dist["repaired-region:scripts with " + rk] += 1
     consts, tr = transpile(inside)
     acc = [(s, r) for s, r in zip(inside, tr) if r["ok"]]
     for s, r in zip(inside, tr):
@@ -975,8 +1082,8 @@ def part_scope(ctx, dist):
     return n_eval
 
 # ------------------------------------------------------------------ E. listed findings
-def replay_finding(ctx, f, consts, dist):
-    """-> True iff the witness still violates the property on the real code"""
+def replay_finding(ctx, f, consts, dist, explain=False):
+    """-> truthy iff the witness still violates the property on the real code (explain: (expected, observed))"""
     w = f["witness"]
     src = w["script"]
     consts2, tr = transpile([src])
@@ -984,12 +1091,15 @@ def replay_finding(ctx, f, consts, dist):
     if not r["ok"]:
         return False
     mode = w.get("expect", "compile-fail")
+    fixed = f.get("kind") == "fixed"
     if mode == "compile-fail":
         c = fw.run_sketches([{"cpp": r["cpp"], "compile_only": True}])[0]
         if c["compiled"]:
             return False
+        if explain:
+            return ("g++ -std=gnu++17 compiles and links", re.findall(r"error: .*", c["compile_log"])[:4] or "g++ error")
         # the ordering findings must also be predicted by the section model
-        if w.get("model_predicts") and ctx.exe:
+        if w.get("model_predicts") and ctx.exe and not fixed:
             items, m = analyse_sections(ctx, src, r, consts2, c, dist)
             if m is not None and (m["wf"] != 0 or m["guard"] != 0 or not any(w["model_predicts"] in n for _, n in m["undeclared"])):
                 ctx.disagree("listed ordering finding reproduces on g++ but the section model does not predict it", {"script": src}, w["model_predicts"], m)
@@ -997,9 +1107,12 @@ def replay_finding(ctx, f, consts, dist):
     if mode == "value-differs":
         x = fw.run_sketches([{"cpp": r["cpp"], "loops": 0}])[0]
         if not x["compiled"]:
-            return True
-        lines = [e for e in x["events"] if e.startswith("S ")]
-        return not lines or unescape_event(lines[0][2:]) != w["value"].encode("utf-8")
+            return ("compiles and prints the value", re.findall(r"error: .*", x["compile_log"])[:4] or "g++ error") if explain else True
+        gotl = [unescape_event(e[2:]) for e in x["events"] if e.startswith("S ") or e == "S"]
+        wantl = serial_lines(w["value"].encode("utf-8") + b"\r\n")
+        if gotl == wantl:
+            return False
+        return ([list(v) for v in wantl], [list(v) for v in gotl]) if explain else True
     return False
 
 
@@ -1015,8 +1128,19 @@ def run(ctx: C.Ctx):
         timing[name] = round(time.time() - t0, 1)
         t0 = time.time()
 
-    n1, nt1, strings = part_escape(ctx, dist, samples); lap("A escape")
-    n2 = part_lexer(ctx, dist); lap("B lexer")
+    # repaired findings first: a fixed entry suppresses nothing - its witness is replayed on every run and, when it fails again,
+    # reported as a VIOLATION with the witness as replay (before anything the generators may find in the same region)
+    for f in local_findings(ctx):
+        if f.get("kind") != "fixed":
+            continue
+        why = replay_finding(ctx, f, None, dist, explain=True)
+        if why:
+            ctx.fail(f"{f['id']} (recorded as fixed in {f.get('commit')}) fails again: {f['what']}", {"script": f["witness"]["script"], "finding": f["id"]},
+                     why[0], why[1], key="fixed:" + f["id"])
+    lap("fixed findings replayed")
+
+    n1, nt1, strings, escaped = part_escape(ctx, dist, samples); lap("A escape")
+    n2 = part_lexer(ctx, dist, escaped); lap("B lexer")
     n3 = part_literals(ctx, dist, strings); lap("C literals")
     n4, nt4, consts = part_scripts(ctx, dist, samples); lap("D scripts (+G headers/functions, I scopes)")
     n5 = part_scope(ctx, dist); lap("F user-variable scoping")
@@ -1025,6 +1149,9 @@ def run(ctx: C.Ctx):
 
     for f in local_findings(ctx):
         if f.get("kind") == "fixed":
+            # a repaired defect's witness is INSIDE the guard now: the generators may draw it
+            if G.shapes_of(f["witness"]["script"]):
+                ctx.disagree("witness of a repaired finding is still outside the executable guard", {"script": f["witness"]["script"]}, "inside", sorted(G.shapes_of(f["witness"]["script"])))
             continue
         if replay_finding(ctx, f, consts, dist):
             ctx.known(f"{f['id']}: {f['what']}")
@@ -1036,10 +1163,11 @@ def run(ctx: C.Ctx):
     ctx.coverage.update({
         "evaluations": n1 + n2 + n3 + n4 + n5 + n6,
         "distinct_nontrivial": nt1 + nt4,
-        "rule": "A: escape on special strings + all 1/2-character strings over a 12-symbol boundary alphabet + all 3-character strings over 5 symbols + seeded printable strings (ASCII incl. quote/backslash/?, Unicode) + strings with control characters (model vs _escape_string_literal; the real output lexed by the model lexer; the three escape call sites of _to_c_expr). "
-                "B: C++ literal bodies built from plain characters, simple/octal/hex escapes, trigraph-like sequences, line splices, non-ASCII: model lexer vs the bytes g++ stores. "
-                "C: printable strings in 11 script contexts (write, variable, list element, function argument, f-string, concatenation, +=, return value of a helper, arm of a conditional expression, comparison with a second spelling of the literal, text / label arguments of LCD calls) transpiled, compiled, run; the printed line must be the Python value. "
-                "D: 6 edge scripts + 31 boundary scripts (every device name bound twice with the same arguments / with other pins, hoistable kinds bound before the loop and again at its top; every combination and declaration order of Servo / parallel LCD / I2C LCD incl. a Servo hoisted from the loop head and two objects per class; every helper shape: parameter re-bound to float called with int and float in both orders, two real overloads, calls through annotated wrappers, one signature twice, never called, called from a function only) + seeded structured scripts (c06_gen.gen_script: device kinds forced in rotation before the loop / hoistable kinds at the top of the loop body; every 4th script with 1-3 instances per device kind in shuffled order, both LCD interfaces / only one of them in rotation, a hoistable kind both before and in the loop; every 4th script with helpers whose un-annotated parameters are called with several argument types (13 shapes in rotation: re-bound parameters, overloads, recursion, list parameter / result, global statement, empty body) at top level, in the loop, in nested blocks and inside other functions; devices first / alternating with globals / below the functions that drive them; pins as literals or global variables; globals, lists, user functions, if/elif/else, for, while, try, tuple assignment, f-strings, device calls with literal and run-time arguments) filtered by the syntactic guard shapes_of; every accepted one is compiled+linked by g++ (oracle) and its top-level structure is read back and compared with the model's stitch order / declared-before-use verdict; on each of them two more property clauses are evaluated on the real artefacts (every instantiated library class has its own header included above the object; no (name, parameter types) is defined twice - in Program.functions and in the text) and Lang/Headers.v / Lang/FnSelect.v are run on the real device declarations / specialisation tables and compared with the real include list, library objects and Program.functions. "
+        "rule": "fixed findings: the four witnesses recorded as fixed are replayed first (a failure is a VIOLATION with the witness as replay). "
+                "A: escape on special strings + all 1/2-character strings over a 21-symbol boundary alphabet (incl. LF, CR, TAB, NUL, 0x01, 0x1f, DEL, digits) + all 3-character strings over 8 symbols + every code point below 256 alone and in front of 0 7 8 a f backslash quote LF + seeded strings, half printable (ASCII incl. quote/backslash/?, Unicode), half with control characters mixed in (often right before a digit / hex digit / backslash / quote) (model vs _escape_string_literal; the real output lexed by the model lexer must give back the string - for EVERY string; the three escape call sites of _to_c_expr). "
+                "B: C++ literal bodies built from plain characters, simple/octal/hex escapes, trigraph-like sequences, line splices, non-ASCII: model lexer vs the bytes g++ stores; plus the images of the REAL escape (special strings, every code point below 256 followed by the digit 7, a sample of the strings with control characters): g++ must store exactly the UTF-8 bytes of the Python string (oracle). "
+                "C: strings (half of them with control characters; NUL excepted) in 11 script contexts (write, variable, list element, function argument, f-string, concatenation, +=, return value of a helper, arm of a conditional expression, comparison with a second spelling of the literal, text / label arguments of LCD calls) transpiled, compiled, run; the printed lines must be the Python value followed by CR LF as the mock's Serial cuts it into lines (split at LF, one CR before the LF dropped - so a CR directly in front of a LF is the one thing this oracle cannot see; parts A and B can). "
+                "D: 6 edge scripts + 46 boundary scripts (the two shapes the prototypes repair: a function that measures - result returned / in a condition / two sensors / only the function measures / function and loop measure / called by a function above it / sensor declared at the top of the loop - and forward calls - int result, with an argument from a float caller, bare statement, condition, mutual recursion, chain of three, two callers, forward and backward; every device name bound twice with the same arguments / with other pins, hoistable kinds bound before the loop and again at its top; every combination and declaration order of Servo / parallel LCD / I2C LCD incl. a Servo hoisted from the loop head and two objects per class; every helper shape: parameter re-bound to float called with int and float in both orders, two real overloads, calls through annotated wrappers, one signature twice, never called, called from a function only) + seeded structured scripts (c06_gen.gen_script: device kinds forced in rotation before the loop / hoistable kinds at the top of the loop body; every 4th script with 1-3 instances per device kind in shuffled order, both LCD interfaces / only one of them in rotation, a hoistable kind both before and in the loop; every 4th script with helpers whose un-annotated parameters are called with several argument types (13 shapes in rotation: re-bound parameters, overloads, recursion, list parameter / result, global statement, empty body) at top level, in the loop, in nested blocks and inside other functions; every 8th script with 2-4 functions written in REVERSE order of their generation (every call among them is a call of a function defined further down) next to an Ultrasonic, function bodies may call measure_distance(); devices first / alternating with globals / below the functions that drive them; pins as literals or global variables; globals, lists, user functions, if/elif/else, for, while, try, tuple assignment, f-strings, device calls with literal and run-time arguments) filtered by the syntactic guard shapes_of; every accepted one is compiled+linked by g++ (oracle) and its top-level structure is read back and compared with the model's stitch order / declared-before-use verdict; on each of them two more property clauses are evaluated on the real artefacts (every instantiated library class has its own header included above the object; no (name, parameter types) is defined twice - in Program.functions and in the text) and Lang/Headers.v / Lang/FnSelect.v are run on the real device declarations / specialisation tables and compared with the real include list, library objects and Program.functions. "
                 "H: harness/c06_pairs.py - a catalog of ~130 statement shapes (every method of Led, RGBLed, Buzzer, Servo, DCMotor, LCD (parallel with backlight pin and I2C), SerialMonitor, Core, sensors with all-literal and with run-time arguments, optional arguments present / absent; tuple assignments all-new / swap / rotate, list literal / comprehension / append / remove / len / index / setitem, calls, for / while / if / elif / try with names promoted out of them, augmented assignments, in functions the re-assignment of the parameter) put TWICE (second copy shuffled, fresh Python names) into ONE block of each of 13 kinds (setup, loop, function body, if / elif / else arm, for, while, try, except, if inside a function, for inside if, loop body below devices declared at its top): every pair of shapes and every shape with itself share one C++ scope; g++ is the oracle, a failing sequence is reduced by ddmin and the minimal script is the replay (evaluations count the pairs); thorough: 6 more rounds per context with three shuffled copies cut at a random length. "
                 "I: every compiled script of D and H: each function of the real text is read back into blocks / header declarations / declarations (harness/c06_scope.py), the extracted scope stack decides whether a name is declared twice in one scope (oracle, cross-checked with g++'s 'redeclaration' errors in both directions), and the extracted emitter model run on the real IR (node kinds + the attributes that decide the template: literal vs run-time durations, empty pattern, known melody / LCD / button) must reproduce blocks and declared names of setup, loop and every user function exactly (declaration-free blocks pruned on both sides). "
                 "F: statement-fragment programs (harness/progen.py feature sets + 34 scoping boundary templates: all-new / mixed / all-old tuple assignments at every level, names first bound in branches and loops, for variables re-bound after the loop) through the extracted Lang.Transl + Lang.Scope and through the real transpiler + g++: the theorem's conclusion is re-checked on the extracted model, and a target the model finds invisible must make g++ fail with 'not declared'. "
@@ -1047,7 +1175,7 @@ def run(ctx: C.Ctx):
         "samples": samples[:4],
         "timing_s": timing,
         "distribution": {k: v for k, v in sorted(dist.items(), key=lambda kv: str(kv[0]))},
-        "guard": "strings: str.isprintable() (theorem guard: no LF/CR). scripts: c06_gen.shapes_of(script) is empty - no user function that calls measure_distance() or lcd.animate(), no call of a function defined later, no '**', no 'except <Name>', no '+' of two string literals, no C++ keyword / Arduino core name as a Python identifier, no top-level tuple assignment mixing new and old names, no for variable mentioned after its loop, no for over anything but range(...), no un-annotated parameter re-bound to a string-valued expression, no string / float literal passed to an un-annotated parameter outside an assignment or return value, no function above an RGBLed whose on/off/blink/toggle it calls, no Servo / Buzzer name bound twice with different arguments besides the pin; plus generator invariants: type-correct Python, one type class per variable name, list.append/remove arguments of the element type, a helper with two real overloads has one numeric and one String overload and is called only as the right-hand side of an assignment, a helper whose un-annotated parameter is used as a list is called once in an assignment. Function theorem C06_fn_no_redefinition_partial: all labels in _cpp_type's table. Redeclaration theorem C06_emit_no_redeclaration_partial: the declarations the script itself causes (locals, for variables, catch targets, parameters, button polls) are free of redeclaration (the parser's bookkeeping; checked by g++ and the scope oracle, not proved). Globals theorem: every name always offered with the same initialiser. Scoping theorem: setup() has no top-level local declaration (for loop()), targets of augmented assignments not checked",
+        "guard": "strings: none (every string; the device-value oracle of part C leaves out NUL, which a C string cannot carry). scripts: c06_gen.shapes_of(script) is empty - (lcd.animate() inside a function is generated since repair 17b67c1; `**` is rejected by the transpiler since repair c223eb4) no call of a function defined further down unless that function evidently returns an int or nothing, no '**', no 'except <Name>', no '+' of two string literals, no C++ keyword / Arduino core name as a Python identifier, no top-level tuple assignment mixing new and old names, no for variable mentioned after its loop, no for over anything but range(...), no un-annotated parameter re-bound to a string-valued expression, no string / float literal passed to an un-annotated parameter outside an assignment or return value, no function above an RGBLed whose on/off/blink/toggle it calls, no Servo / Buzzer name bound twice with different arguments besides the pin; plus generator invariants: type-correct Python, one type class per variable name, list.append/remove arguments of the element type, a helper with two real overloads has one numeric and one String overload and is called only as the right-hand side of an assignment, a helper whose un-annotated parameter is used as a list is called once in an assignment. Function theorem C06_fn_no_redefinition_partial: all labels in _cpp_type's table. Redeclaration theorem C06_emit_no_redeclaration_partial: the declarations the script itself causes (locals, for variables, catch targets, parameters, button polls) are free of redeclaration (the parser's bookkeeping; checked by g++ and the scope oracle, not proved). Globals theorem: every name always offered with the same initialiser. Scoping theorem: setup() has no top-level local declaration (for loop()), targets of augmented assignments not checked",
         "unmodelled": ["the C++ type checker (template deduction in the list helpers, String overloads, implicit conversions): decided by g++ only",
                        "AVR specifics: <cstring> in the len helper, 16-bit int, PROGMEM; the mock is a hosted g++ 12 with the mock core",
                        "universal character names, GNU escapes, numeric escapes > 255, -trigraphs / -std=c++NN modes (the lexer model answers None)",
